@@ -5,6 +5,7 @@ from harness.core import *
 from harness import gen
 from harness.props._sp_util import *
 from harness.props import C01, C02, C03, C04
+from harness.props import _c12_util as TW
 
 PID = "C12"
 LEVEL = "proof"
@@ -13,6 +14,7 @@ GLUE_PREAMBLE = ""     # C04 provides d_dtree
 ASSUMPTIONS = [
     "a presentation = permuted rule list, permuted node positions and edge order inside every rule, permuted label indices (label-table insertion order), random label names (hash order of sets), explicit/implicit/mixed ids, permuted domain values together with the factor axes",
     "each presentation's results are mapped back to the canonical indexing and judged in Coq against the canonical grammar's model (C01/C02 check functions); the Viterbi derivation is judged on the presentation itself (C04 check function)",
+    "twin rules (harness/props/_c12_util.py): random specs in which 1..3 rules get a twin with the same lhs and the same edge list but other external nodes (order / choice), an added or dropped isolated node, or nothing changed (duplicate); recursive specs get a forced cycle and the twin is preferably a constant rule of a cyclic nonterminal; each twinned spec is built through {direct objects, JSON dict -> json_to_hrg, hrg_to_json round trip, FGG.copy} x id styles {restarting in every rule, globally distinct, implicit, the same Node/Edge objects shared by all rules (explicit or implicit ids)} with shuffled rule order and call histories (same call twice, another method first), and every result is judged in Coq against the twinned spec's own model (C01/C02; Viterbi by C04, gradients by C03 with ids restarting in every rule); recursive specs whose run with globally distinct ids warns, is infinite or has an unproductive cycle are discarded (input selection only)",
     "gradients: on a subset of the grammars (weights made strictly positive) every presentation's gradient is judged by C03's dual-number check on the presentation itself; by C12_grad_presentation / C12_dual_presentation (C12_presentation at the dual semiring) the derivative of every Kleene iterate with respect to the moved weight entry is invariant, and so is the reverse accumulation of non-recursive grammars (C12_backward_nonrec_presentation)",
     "recursive grammars: C12_lfp_presentation / C12_lfp_value_presentation / C12_enclosure_presentation: least fixed points and certified enclosures of G and of any presentation correspond (iff), so judging the mapped-back result against the canonical grammar's C02 enclosure is judging the presentation's own least fixed point; Viterbi: C12_tree_presentation, C12_viterbi_derivation_presentation, C12_viterbi_optimum_presentation",
 ]
@@ -108,6 +110,9 @@ def run(tier, seed):
             except Exception as e:
                 violations.append(Violation("gradient computation raised %r on a presentation" % (e,), case=dict(spec=gen.spec_jsonable(spec2), semiring=repr(sr), method=method),
                                             corr="corr:presentation-gradient", call="sum_product(...).backward()"))
+    # twin rules: same lhs, EQUAL edges (ids are only unique inside one rule), different externals / isolated nodes;
+    # every construction path x id style (harness/props/_c12_util.py)
+    tw = TW.twin_stream(tier, seed, nonrec, nonrec_meta, rec, rec_meta, vit, vit_meta, gvals, gmeta, violations, distinct, TW.new_stats())
     total = 0; nk = 0; skipped = 0
     if gvals:
         gcodes, a = C03.run_model_parallel(gvals, seed, 2)
@@ -137,8 +142,8 @@ def run(tier, seed):
         violations.append(Violation("viterbi on a re-written grammar: verdict %d (see C04 codes)" % c, case=case, oracle="C04 oracle",
                                     corr="C12 / C04", failing_input_found=True, call="fggs.viterbi(presentation)"))
     cov = dict(evaluations=total, distinct_nontrivial=len(distinct), presentations=npres, discarded_inconclusive=skipped,
-               rule="random FGG specs (2/3 non-recursive, 1/3 recursive) x %d random presentations each (rule/node/edge order, label-table order, names, id style, domain-value permutations with factor axes) x semiring/method rotating; each presentation's sum_products mapped back and judged against the canonical grammar; distinct_nontrivial = distinct canonical specs (all have >= 1 rule and are presented >= %d ways)" % (k_pres, k_pres),
-               kernel_reevaluated=nk,
+               rule="random FGG specs (2/3 non-recursive, 1/3 recursive) x %d random presentations each (rule/node/edge order, label-table order, names, id style, domain-value permutations with factor axes) x semiring/method rotating; each presentation's sum_products mapped back and judged against the canonical grammar; distinct_nontrivial = distinct canonical specs (all have >= 1 rule and are presented >= %d ways); plus the twin-rule stream (twin_stream: specs with rules of equal lhs and equal edges that differ in externals / isolated nodes, built through every construction path x id style; equal_edge_builds = builds in which two different rules really have EQUAL Edge tuples)" % (k_pres, k_pres),
+               kernel_reevaluated=nk, twin_stream=tw,
                samples=[(nonrec_meta["real"] or rec_meta["real"] or [None])[0]],
                open_items=[
                    "C09 part of C12_model_perm: independence of the linear/Newton solves from the elimination order is C09's/C02's theorem (C02_linear_is_least_fixed_point holds for ANY elimination order; C12_scc_runs_presentation composes it through `exact_run`), but Newton's iterates themselves on a presentation are not related step by step; C12_tree_presentation gives an image derivation for every derivation of G (same weight, depth) but not the converse map G' -> G as a function (only domination: C12_optimal_derivation_presentation)",
@@ -150,6 +155,7 @@ def run(tier, seed):
 def replay(path):
     import fggs
     r = json.load(open(path)); c = r["case"]
+    if "twin" in c: return TW.replay_twin(c)
     if "presentation" not in c or "perm" not in c:
         print("this replay carries no presentation; re-run bin/check C12 quick with the recorded seed"); return 1
     spec = gen.spec_from_json(c["spec"]); spec2 = gen.spec_from_json(c["presentation"])
@@ -191,7 +197,7 @@ def replay(path):
 
 MANIFEST = dict(
     level="proof",
-    text="Coq: the definition of the sum-product (sum over derivation trees; Kleene iterates) is invariant under permuting the rule list, the edge list and the node numbering of every rule, and equivariant under renumbering edge/node labels and permuting the values of every domain together with the factor axes (each separately and composed: C12_presentation; carried to tree_sum, to the sum over all derivations of non-recursive grammars and to the code-shaped driver with any dependency-respecting component order: C12_model_presentation, C12_scc_order_irrelevant), in every commutative semiring, and C01/C02 tie the code's result to that definition. Recursive grammars: one application of the equations commutes with re-presentation at arbitrary environments (C12_step_presentation), hence x is the least fixed point / [lo,hi] a certified enclosure of G iff the re-indexed x / [lo,hi] is one of every presentation G' (C12_lfp_presentation(_all), C12_lfp_value_presentation, C12_enclosure_presentation, C12_enclosure_run_presentation, C12_scc_runs_presentation; Bool/Real/Viterbi instances). Derivations: the presentation map on derivation trees sends well-formed derivations to well-formed derivations of the same weight and depth (C12_tree_map_sim, C12_tree_presentation); in the Viterbi semiring the image of an optimal derivation is optimal and the optimum is the same (C12_viterbi_derivation_presentation, C12_viterbi_optimum_presentation). Gradients: dual-number derivatives of every Kleene iterate w.r.t. the moved weight entry and the reverse accumulation of non-recursive grammars are invariant (C12_grad_presentation, C12_backward_nonrec_presentation). Metamorphic correspondence: several random presentations of each generated FGG (rule/node/edge order, label-table order, names, id style, domain-value permutations) are run through sum_products / viterbi and every result, mapped back, is judged in Coq against the canonical grammar's model.",
+    text="Coq: the definition of the sum-product (sum over derivation trees; Kleene iterates) is invariant under permuting the rule list, the edge list and the node numbering of every rule, and equivariant under renumbering edge/node labels and permuting the values of every domain together with the factor axes (each separately and composed: C12_presentation; carried to tree_sum, to the sum over all derivations of non-recursive grammars and to the code-shaped driver with any dependency-respecting component order: C12_model_presentation, C12_scc_order_irrelevant), in every commutative semiring, and C01/C02 tie the code's result to that definition. Recursive grammars: one application of the equations commutes with re-presentation at arbitrary environments (C12_step_presentation), hence x is the least fixed point / [lo,hi] a certified enclosure of G iff the re-indexed x / [lo,hi] is one of every presentation G' (C12_lfp_presentation(_all), C12_lfp_value_presentation, C12_enclosure_presentation, C12_enclosure_run_presentation, C12_scc_runs_presentation; Bool/Real/Viterbi instances). Derivations: the presentation map on derivation trees sends well-formed derivations to well-formed derivations of the same weight and depth (C12_tree_map_sim, C12_tree_presentation); in the Viterbi semiring the image of an optimal derivation is optimal and the optimum is the same (C12_viterbi_derivation_presentation, C12_viterbi_optimum_presentation). Gradients: dual-number derivatives of every Kleene iterate w.r.t. the moved weight entry and the reverse accumulation of non-recursive grammars are invariant (C12_grad_presentation, C12_backward_nonrec_presentation). Metamorphic correspondence: several random presentations of each generated FGG (rule/node/edge order, label-table order, names, id style, domain-value permutations) are run through sum_products / viterbi and every result, mapped back, is judged in Coq against the canonical grammar's model. Twin rules (same lhs, equal edges because ids restart in every rule or objects are shared, different externals / isolated nodes) are generated separately and built through every constructor path and id style; Coq: C12_rule_appended (every rule of the list contributes its own value), C12_twin_rules_not_interchangeable_* (a rule is not determined by lhs and edges).",
     note="Trusted: Coq kernel, extraction cross-checked by vm_compute, the harness's presentation transform and back-mapping; Python hash-order variation is induced by random label names within one interpreter.",
     technique="Coq invariance theorems + metamorphic model/implementation correspondence",
     design_ref="DESIGN.md section 6, C12")
